@@ -308,12 +308,33 @@ class LoopCheck(Check):
                 w = self._aspire_run(ctx, cfg, fns, path, fail_at=c)
                 if w.exception is None:
                     continue
-                if w.sampler is None or w.sampler.last_checkpoint_bytes is None:
+                d = {"crash_at_likelihood_call": c}
+                last = w.sampler.last_checkpoint_bytes if w.sampler is not None else None
+                if "C12" in self.props:
+                    # what the interrupted Aspire run left on disk
+                    import h5py
+
+                    ctx.reach("c12/aspire_file_after_fault")
+                    if ctx.prove(os.path.exists(path), "c12/aspire_file_exists", detail=d):
+                        with h5py.File(path, "r") as f:
+                            keys = sorted(f.keys())
+                            blob = f["checkpoint"]["state"][...].tobytes() if "checkpoint" in f and "state" in f["checkpoint"] else None
+                        ctx.prove("aspire_config" in keys, "c12/file_has_config", detail={"groups": keys, **d})
+                        ctx.prove("flow" in keys, "c12/file_has_proposal", detail={"groups": keys, **d})
+                        ctx.prove(blob == last, "c12/aspire_file_is_latest_payload", detail={"file_bytes": None if blob is None else len(blob), "latest_bytes": None if last is None else len(last), **d})
+                if last is None:
                     continue
                 ctx.reach("c11/resume_constructor")
                 res = self._aspire_run(ctx, cfg, fns, path, resume=True)
-                res.kernel_offset = len(pickle.loads(w.sampler.last_checkpoint_bytes)["history"].mcmc_acceptance)
-                loop_checks.compare_runs(ctx, ref, res, "c11/resume_constructor", detail={"crash_at_likelihood_call": c})
+                if "C12" in self.props:
+                    ctx.prove(res.load_error is None, "c12/file_loadable", detail={"error": repr(res.load_error), **d})
+                if res.load_error is not None:
+                    if "C11" in self.props:
+                        ctx.prove(False, "c11/resume_constructor/finished", detail={"error": repr(res.load_error), **d})
+                    continue
+                if "C11" in self.props:
+                    res.kernel_offset = len(pickle.loads(last)["history"].mcmc_acceptance)
+                    loop_checks.compare_runs(ctx, ref, res, "c11/resume_constructor", detail=d)
         finally:
             A.get_flow_wrapper = old_wrapper
 
@@ -331,9 +352,14 @@ class LoopCheck(Check):
         kw["sampler_kwargs"] = {"n_steps": 1}
         if cfg.get("n_final"):
             kw["n_final_samples"] = env.N + 1
+        env.load_error = None
         try:
             if resume:
-                a = Aspire.resume_from_file(path, log_likelihood=env.target.log_likelihood, log_prior=env.target.log_prior)
+                try:
+                    a = Aspire.resume_from_file(path, log_likelihood=env.target.log_likelihood, log_prior=env.target.log_prior)
+                except (KeyError, ValueError, OSError, AttributeError, TypeError) as e:
+                    env.load_error = e
+                    return env
                 env.final = a.sample_posterior(preconditioning="none", **kw)
             else:
                 a = Aspire(log_likelihood=env.target.log_likelihood, log_prior=env.target.log_prior, dims=d, parameters=params, flow=env.flow, xp=sx)
